@@ -57,11 +57,62 @@ class Model:
     def arrays(self):
         return {k: v for k, v in vars(self).items() if isinstance(v, np.ndarray)}
 
+    __harness_standin__ = True
+
+    def _bind(self, cls):
+        """The class whose validators run on this stand-in: helper methods the validators call on `self` are the class's own."""
+        object.__setattr__(self, "_bound_class", cls)
+
+    def __getattr__(self, name):
+        cls = self.__dict__.get("_bound_class")
+        if cls is not None and not name.startswith("__"):
+            for klass in getattr(cls, "__mro__", ()):
+                if name in vars(klass):
+                    attr = vars(klass)[name]
+                    if isinstance(attr, staticmethod):
+                        return attr.__func__
+                    if isinstance(attr, classmethod):
+                        return types.MethodType(attr.__func__, cls)
+                    if isinstance(attr, types.FunctionType):
+                        return types.MethodType(attr, self)
+                    break
+        raise AttributeError("%s stand-in has no attribute %r" % (type(self).__name__, name), name=name, obj=self)
+
 
 def raw(cls, name):
     """The function behind a pydantic validator descriptor."""
+    from roptvc.sym import ContractUnbound
+
+    if name not in cls.__dict__:
+        raise ContractUnbound("the validator %s.%s that the contract enters by no longer exists under that name" % (cls.__name__, name))
     d = cls.__dict__[name]
     return getattr(d, "wrapped", d)
+
+
+def after(cls, me, ctx_info=None):
+    """Every 'after' model validator of the class - its own and the inherited ones - applied to `me` in pydantic's order: what
+    validation does to an object whose fields have passed the field validators, however the class spreads the work over validators."""
+    import inspect
+
+    out = me
+    if hasattr(me, "_bind"):
+        me._bind(cls)
+    decs = getattr(cls, "__pydantic_decorators__", None)
+    items = list(decs.model_validators.items()) if decs is not None else []
+    ran = 0
+    for _name, dec in items:
+        if getattr(dec.info, "mode", None) != "after":
+            continue
+        fn = getattr(dec.func, "__func__", dec.func)
+        npar = len([p for p in inspect.signature(fn).parameters.values() if p.default is p.empty and p.kind in (p.POSITIONAL_ONLY, p.POSITIONAL_OR_KEYWORD)])
+        res = fn(out, ctx_info) if npar >= 2 else fn(out)
+        out = res if res is not None else out
+        ran += 1
+    if not ran:
+        from roptvc.sym import ContractUnbound
+
+        raise ContractUnbound("%s has no after-validator any more" % cls.__name__)
+    return out
 
 
 def frozen_ok(T, prefix, me, validated=True):
@@ -217,6 +268,12 @@ def cases_validators(tier):
         for field in ("function_estimators", "realization_filters"):
             for L in (1, 2, 3, 4):
                 yield "%s/%s-of-length-%d-for-3-functions" % (which, field, L), {"v": "index-maps", "which": which, "field": field, "L": L, "tr": False, "bad": False}
+    # ... also when the number of constraints shows in ONE of the bound arrays only (the other given once)
+    for field in ("function_estimators", "realization_filters"):
+        for L in (1, 2):
+            yield "nonlinear/%s-of-length-%d-for-3-functions/lower-bound-given-once" % (field, L), {"v": "index-maps", "which": "nonlinear", "field": field, "L": L, "tr": False, "bad": False, "lb1": True}
+    # a transform that reverses the order of the bounds (a negative scale): the consistency check is about the bounds that are STORED
+    yield "nonlinear/transform=negative-scale", {"v": "nonlinear", "tr": True, "bad": False, "negative": True}
     for tr in (False, True):
         for bad in (False, True):
             yield "nonlinear/transform=%s/inverted=%s" % (tr, bad), {"v": "nonlinear", "tr": tr, "bad": bad}
@@ -264,8 +321,8 @@ class _Scaler:
 
 
 class _NlScaler:
-    def __init__(self, T):
-        self.k = T.real("constraint_scale", (), lo=0.01, hi=100.0)
+    def __init__(self, T, negative=False):
+        self.k = T.real("constraint_scale", (), lo=-100.0, hi=-0.01) if negative else T.real("constraint_scale", (), lo=0.01, hi=100.0)
 
     def bounds_to_optimizer(self, lb, ub):
         return lb / self.k, ub / self.k
@@ -282,7 +339,7 @@ def scn_validators(T, case):
             w = T.np.array([w[0], w[1], 0.0 * w[2]])
         me = Model(weights=_imm(T, w), realization_min_success=case["ms"])
         me._immutable()
-        out = raw(cls, "_broadcast_normalize_and_check")(me)
+        out = after(cls, me)
         T.prove("C18.realizations.returns_self", out is me)
         T.prove("C18.realizations.weights_normalised", T.same(T.total([me.weights[i] for i in range(3)]), 1.0) if T.symbolic else abs(float(np.sum(me.weights)) - 1) < 1e-12)
         S = T.total([w[i] for i in range(3)])
@@ -295,7 +352,7 @@ def scn_validators(T, case):
         w = T.real("weights", (2,), lo=0.001)
         me = Model(weights=_imm(T, w), realization_filters=None, function_estimators=None)
         me._immutable()
-        raw(cls, "_broadcast_and_normalize")(me)
+        after(cls, me)
         T.prove("C18.objectives.weights_normalised", T.same(T.total([me.weights[i] for i in range(2)]), 1.0) if T.symbolic else abs(float(np.sum(me.weights)) - 1) < 1e-12)
         frozen_ok(T, "C18.objectives", me)
     elif v == "index-maps":
@@ -305,12 +362,12 @@ def scn_validators(T, case):
         if case["which"] == "objectives":
             cls = _cls(T, sh, "_objective_functions_config", "ObjectiveFunctionsConfig")
             me = Model(weights=_imm(T, T.real("weights", (n,), lo=0.001)), **{field: _imm(T, given), other: None})
-            call = lambda: raw(cls, "_broadcast_and_normalize")(me)  # noqa: E731
+            call = lambda: after(cls, me)  # noqa: E731
         else:
             cls = _cls(T, sh, "_nonlinear_constraints_config", "NonlinearConstraintsConfig")
-            lb = T.real("lb", (n,))
-            me = Model(lower_bounds=_imm(T, lb), upper_bounds=_imm(T, T.real("ub", (n,), ge=lb)), **{field: _imm(T, given), other: None})
-            call = lambda: raw(cls, "_broadcast_and_check")(me, info(None))  # noqa: E731
+            lb = T.real("lb", (1 if case.get("lb1") else n,))
+            me = Model(lower_bounds=_imm(T, lb), upper_bounds=_imm(T, T.real("ub", (n,), ge=lb[0] if case.get("lb1") else lb)), **{field: _imm(T, given), other: None})
+            call = lambda: after(cls, me, info(None))  # noqa: E731
         me._immutable()
         try:
             call()
@@ -328,17 +385,31 @@ def scn_validators(T, case):
         lb = T.real("lb", (1,))
         ub = T.real("ub", (n,))
         ok = T.all([lb[0] <= ub[i] for i in range(n)])
+        if case.get("negative"):
+            cls = _cls(T, sh, "_nonlinear_constraints_config", "NonlinearConstraintsConfig")
+            me = Model(lower_bounds=_imm(T, lb), upper_bounds=_imm(T, ub), realization_filters=None, function_estimators=None)
+            sc = _NlScaler(T, negative=True)
+            me._immutable()
+            stored_bad = T.any([lb[0] / sc.k > ub[i] / sc.k for i in range(n)])
+            try:
+                after(cls, me, info(types.SimpleNamespace(nonlinear_constraints=sc)))
+            except ValueError:
+                T.prove("C18.nonlinear.rejects_only_when_the_stored_bounds_are_inverted", stored_bad)
+                return
+            T.prove("C18.nonlinear.inverted_stored_bounds_are_rejected", ~stored_bad if T.symbolic else not stored_bad)
+            frozen_ok(T, "C18.nonlinear", me)
+            return
         T.assume(~ok if (case["bad"] and T.symbolic) else (ok if not case["bad"] else not ok))
         if v == "nonlinear":
             cls = _cls(T, sh, "_nonlinear_constraints_config", "NonlinearConstraintsConfig")
             me = Model(lower_bounds=_imm(T, lb), upper_bounds=_imm(T, ub), realization_filters=None, function_estimators=None)
             ctx = types.SimpleNamespace(nonlinear_constraints=_NlScaler(T)) if case["tr"] else None
-            fn, name = raw(cls, "_broadcast_and_check"), "C18.nonlinear"
+            fn, name = (lambda m, i: after(cls, m, i)), "C18.nonlinear"
         else:
             cls = _cls(T, sh, "_variables_config", "VariablesConfig")
             me = Model(initial_values=_imm(T, T.real("x0", (n,))), lower_bounds=_imm(T, lb), upper_bounds=_imm(T, ub), types=None, mask=_imm(T, np.array([bool(case.get("mask1", True))])))
             ctx = types.SimpleNamespace(variables=_Scaler(T, n)) if case["tr"] else None
-            fn, name = raw(cls, "_broadcast_and_transform"), "C18.variables"
+            fn, name = (lambda m, i: after(cls, m, i)), "C18.variables"
         me._immutable()
         try:
             fn(me, info(ctx))
@@ -362,7 +433,7 @@ def scn_validators(T, case):
         me = Model(coefficients=_imm(T, A), lower_bounds=_imm(T, lb), upper_bounds=_imm(T, ub))
         me._immutable()
         try:
-            raw(cls, "_broadcast_and_check")(me)
+            after(cls, me)
         except ValueError:
             T.prove("C18.linear.rejects_only_inverted_bounds", case["bad"])
             return
